@@ -49,7 +49,9 @@ def run(ctx: core.Ctx) -> core.Report:
     rep.rule = ("interleaved send_sd calls over 1..5 destinations (incl. the multicast default) with empty sends mixed in; one "
                 "destination walked through a complete wrap (quick) / three destinations wrapping at different moments "
                 "through two full cycles (thorough); ids and flags decoded from the sendto arguments; non-trivial = "
-                "sequence touches >= 2 destinations or crosses a wrap")
+                "sequence touches >= 2 destinations or crosses a wrap; plus notification walks of a SimpleEventgroup (4 events per "
+                "round, two subscribers joining at different rounds, every destination through its wrap; thorough: 2 / 6 / 7 "
+                "events per round, three subscribers) with every datagram split into its messages")
     seqs = []
     for i in range(ctx.n(200, 2000)):
         nd = rng.randrange(1, 6)
@@ -129,5 +131,65 @@ def run(ctx: core.Ctx) -> core.Report:
         rep.dist["len>65535" if len(s) > 65535 else "short"] += 1
         if i < 2:
             rep.sample({"sequence": case["sequence"][:20], "ids": got[:20]})
+    notification_walks(ctx, rep)
     return rep
+
+
+def notification_walks(ctx, rep):
+    """the statement's second half: event notifications of a service endpoint.  A SimpleEventgroup with n events per round
+    and several subscribers that join at different moments is driven through the wrap of every destination; every datagram
+    is split into its messages and the per-destination id sequence must be 1, 2, ..., 0xFFFF, 1, 2, ... - also compared with
+    the Lean model's session storage on the same sequence of destinations."""
+    from harness.props import c17
+
+    plans = [(4, [0, 500])] if ctx.tier == "quick" else [(4, [0, 500]), (2, [0, 1, 40000]), (7, [0, 3000]), (6, [0])]
+    for nev, joins in plans:
+        rep.evaluations += 1
+        w = c17.World(0)
+        seq = []   # (dest token, id) in transmission order
+        try:
+            for ev in range(1, nev + 1):
+                w.eg.values[ev] = b"v"
+            rounds = 65535 // nev + 60 + max(joins)
+            if ctx.tier == "quick":
+                rounds = 65535 // nev + 60 + max(joins)
+            once = f"eg.once s {nev} " + " ".join(str(e) for e in range(1, nev + 1))
+            n0 = 0
+            for r in range(rounds):
+                for k, j in enumerate(joins):
+                    if j == r:
+                        w.apply(f"eg.sub s {k + 1}")
+                        w.apply("eg.settle s")
+                w.apply(once)
+                w.apply("eg.settle s")
+            for _t, dest, data in w.sent:
+                b = bytes(data)
+                while b:
+                    m, b = H.SOMEIPHeader.parse(b)
+                    seq.append((dest, m.session_id, m.message_type))
+        finally:
+            w.close()
+        case = {"notifications": {"events_per_round": nev, "subscribers_join_at_round": joins, "messages": len(seq)}}
+        count = {}
+        bad = None
+        for dest, sid, mt in seq:
+            k = count.get(dest, 0)
+            count[dest] = k + 1
+            if sid != k % 65535 + 1 and bad is None:
+                bad = f"{k}-th notification to {dest} carries session id {sid}, expected {k % 65535 + 1}"
+        if bad:
+            rep.violation("C08:notification-id", bad, case)
+        if any(v <= 65535 for v in count.values()):
+            rep.notes.append("a notification walk did not reach the wrap of every destination")
+        # the Lean session storage on the same sequence of destinations (ids only: notifications carry no reboot flag)
+        dests = sorted(count)
+        op = f"sess.send {len(seq)}" + "".join(" " + str(dests.index(d) + 1) for d, _s, _m in seq)
+        out = ctx.model.run([op])[0]
+        model_ids = [x.split(":")[1] for x in out.split(" ")] if out else []
+        if model_ids != [str(sid) for _d, sid, _m in seq]:
+            first = next((i for i, (a, b) in enumerate(zip(model_ids, [str(x[1]) for x in seq])) if a != b), min(len(model_ids), len(seq)))
+            rep.disagree(f"sess.send(notifications, {nev} events/round)", f"id #{first}: {model_ids[first:first + 3]}",
+                         f"id #{first}: {[x[1] for x in seq[first:first + 3]]}", case)
+        rep.nontrivial.add(("notif", nev, tuple(joins)))
+        rep.dist["notification-walk-messages"] += len(seq)
 
